@@ -161,7 +161,7 @@ def proj_of(jp):
 
 
 class State:
-    __slots__ = ("env", "mem", "events", "visited", "known")
+    __slots__ = ("env", "mem", "events", "visited", "known", "shared")
 
     def __init__(self):
         self.env = {}
@@ -169,6 +169,7 @@ class State:
         self.events = []
         self.visited = ()
         self.known = {}  # scrutinee term -> ("eq", value) | ("ne", frozenset(values)) decided earlier on this path
+        self.shared = frozenset()  # places only ever borrowed immutably on this path (a callee cannot write through `&T`)
 
     def fork(self):
         s = State()
@@ -177,11 +178,12 @@ class State:
         s.events = list(self.events)
         s.visited = self.visited
         s.known = dict(self.known)
+        s.shared = self.shared
         return s
 
 
 class Walker:
-    def __init__(self, body, max_paths=20000, decide=None, stop_at=None, revisit=1, keep_switch=None, inline=None, depth=0):
+    def __init__(self, body, max_paths=20000, decide=None, stop_at=None, revisit=1, keep_switch=None, inline=None, depth=0, pfx=None):
         """decide(term) -> value or None: an oracle that fixes the outcome of a switch
         (used to restrict a walk to one row of a table); keep_switch(term)->bool says which
         undecided switches are recorded as decision events (default: all)."""
@@ -191,6 +193,7 @@ class Walker:
         self.stop_at = stop_at
         self.revisit = revisit
         self.inline = inline   # callable(path) -> Body to inline or None
+        self.pfx = pfx         # block-id prefix of an inlined body: its events, phis and call terms carry ("in", pfx, bb)
         self.depth = depth
         self.paths = []
         self.finals = []       # final State of every path (parallel to self.paths)
@@ -289,6 +292,11 @@ class Walker:
             return self.operand(st, r["o"])
         if k == "ref" or k == "rawptr":
             t = self.place_addr(st, r["p"])
+            if k == "ref" and not r.get("mut"):
+                if ("mut", t) not in st.shared:
+                    st.shared = st.shared | {t}
+            else:
+                st.shared = (st.shared - {t}) | {("mut", t)}
             return ("ref", t)
         if k == "cast":
             a = self.operand(st, r["o"])
@@ -339,6 +347,9 @@ class Walker:
         self._walk(start, st)
         return list(zip(self.paths, self.finals))
 
+    def T(self, bb):
+        return bb if self.pfx is None else ("in", self.pfx, bb)
+
     def _emit(self, st):
         self.paths.append(st.events)
         self.finals.append(st)
@@ -371,7 +382,7 @@ class Walker:
         if f0[0] == "closure" and self.inline is not None and self.depth < 2:
             body = self.inline("closure:" + f0[1])
             if body is not None:
-                sub = Walker(body, max_paths=32, inline=self.inline, depth=self.depth + 1)
+                sub = Walker(body, max_paths=32, inline=self.inline, depth=self.depth + 1, pfx=self.T(bb))
                 if not sub.loop_assigned:
                     init = State()
                     init.env[1] = f0
@@ -379,6 +390,7 @@ class Walker:
                         init.env[ai + 2] = a
                     init.mem = dict(st.mem)
                     init.known = dict(st.known)
+                    init.shared = st.shared
                     try:
                         results = sub.run_from(init)
                     except PathBudget:
@@ -387,16 +399,17 @@ class Walker:
                         out = []
                         for ev, fin in results:
                             s2 = st.fork()
-                            s2.events.extend((e[0], ("in", bb, e[1])) + tuple(e[2:]) for e in ev[:-1])
+                            s2.events.extend(ev[:-1])
                             s2.mem = dict(fin.mem)
                             s2.known = dict(fin.known)
+                            s2.shared = fin.shared
                             out.append((s2, ev[-1][2]))
                         return out
         if f0[0] == "fn":
-            st.events.append(("call", ("ap", bb), f0[1], tuple(args), 0, f0[2] if len(f0) > 2 else ""))
-            return [(st, ("call", ("ap", bb), f0[1], tuple(args)))]
-        st.events.append(("call", ("ap", bb), ("indirect", f0), tuple(args), 0, ""))
-        return [(st, ("call", ("ap", bb), ("indirect", f0), tuple(args)))]
+            st.events.append(("call", ("ap", self.T(bb)), f0[1], tuple(args), 0, f0[2] if len(f0) > 2 else ""))
+            return [(st, ("call", ("ap", self.T(bb)), f0[1], tuple(args)))]
+        st.events.append(("call", ("ap", self.T(bb)), ("indirect", f0), tuple(args), 0, ""))
+        return [(st, ("call", ("ap", self.T(bb)), ("indirect", f0), tuple(args)))]
 
     def model_std(self, st, bb, path, args, t):
         import re as _re
@@ -441,7 +454,7 @@ class Walker:
             s2 = st.fork() if bi < len(branches) - 1 else st
             if X[0] != "agg":
                 scrut = ("discr", X, 2, adt)
-                s2.events.append(("switch", bb, scrut, vi, (0, 1)))
+                s2.events.append(("switch", self.T(bb), scrut, vi, (0, 1)))
                 s2.known[scrut] = ("eq", vi)
             what = spec[vi]
             has_payload = names[vi] != "None"
@@ -474,20 +487,20 @@ class Walker:
                 for l in self.loop_assigned.get(bb, ()):
                     if l in b.names and l in st.env:
                         carried[b.names[l]] = st.env[l]
-                st.events.append(("loop", bb, carried))
+                st.events.append(("loop", self.T(bb), carried))
                 self._emit(st)
                 return
             st.visited = st.visited + (bb,)
             if bb in self.loop_assigned and st.visited.count(bb) == 1:
-                st.events.append(("head", bb))
+                st.events.append(("head", self.T(bb)))
                 # loop header: locals carried round the loop are unknown here, not their initial value
                 for l in self.loop_assigned[bb]:
                     if l in st.env:
-                        st.env[l] = ("phi", bb, l, b.local_name(l), st.env[l])
+                        st.env[l] = ("phi", self.T(bb), l, b.local_name(l), st.env[l])
                 for m in [m for m in st.mem if root_local(m) in self.loop_assigned[bb]]:
                     del st.mem[m]
             if self.stop_at and bb in self.stop_at:
-                st.events.append(("stop", bb))
+                st.events.append(("stop", self.T(bb)))
                 self._emit(st)
                 return
             blk = b.blocks[bb]
@@ -509,7 +522,7 @@ class Walker:
                     else:
                         st.mem[addr] = val
                         forget(st, addr)
-                        st.events.append(("store", bb, addr, val, s["s"]))
+                        st.events.append(("store", self.T(bb), addr, val, s["s"]))
             t = blk["term"]
             k = t["k"]
             if k == "goto":
@@ -524,15 +537,15 @@ class Walker:
                     cond = ("bounds", self.operand(st, t["index"]), self.operand(st, t["len"]))
                 elif "a" in t:
                     cond = ("sub" if t["msg"] == "Overflow:Sub" else "ovf", self.operand(st, t["a"]), self.operand(st, t["b"]))
-                st.events.append(("assert", bb, t["msg"], t["s"], cond))
+                st.events.append(("assert", self.T(bb), t["msg"], t["s"], cond))
                 bb = t["t"]
                 continue
             if k == "return":
-                st.events.append(("ret", bb, st.env.get(0, ("loc", 0))))
+                st.events.append(("ret", self.T(bb), st.env.get(0, ("loc", 0))))
                 self._emit(st)
                 return
             if k in ("unreachable", "resume", "abort", "codrop"):
-                st.events.append(("unreachable", bb))
+                st.events.append(("unreachable", self.T(bb)))
                 self._emit(st)
                 return
             if k == "yield":
@@ -548,7 +561,7 @@ class Walker:
                 else:
                     path = ("indirect", f)
                     targs = ""
-                st.events.append(("call", bb, path, args, t["s"], targs))
+                st.events.append(("call", self.T(bb), path, args, t["s"], targs))
                 fb = fold_try_branch(path, args) if t.get("t") is not None and k == "call" else None
                 if fb is None and t.get("t") is not None and k == "call" and isinstance(path, str) and len(args) == 1:
                     if path.endswith("Try>::branch"):
@@ -559,7 +572,7 @@ class Walker:
                         fb = args[0]
                     elif path.endswith("::from_residual") and args[0][0] == "agg" and args[0][2] == "Err" and "result::Result" in path.split(" as ")[0]:
                         # `Err(e)?` / the error exit of `x?`: Err(From::from(e))
-                        fb = ("agg", "std::result::Result", "Err", (("call", bb, "<T as std::convert::From<T>>::from", (args[0][3][0],)),), 1)
+                        fb = ("agg", "std::result::Result", "Err", (("call", self.T(bb), "<T as std::convert::From<T>>::from", (args[0][3][0],)),), 1)
                 if fb is not None:
                     dl, dproj = t["dest"]
                     if not dproj:
@@ -576,28 +589,28 @@ class Walker:
                     if callee is not None and callee.path == self.b.path:
                         callee = None
                 if callee is not None:
-                    sub = Walker(callee, max_paths=64, inline=self.inline, depth=self.depth + 1)
-                    if not sub.loop_assigned:  # loop-free helpers only
+                    sub = Walker(callee, max_paths=64 if not callee_has_loops(callee) else 600, inline=self.inline, depth=self.depth + 1, pfx=self.T(bb))
+                    if True:  # helpers with loops too: their back-edge paths end the caller's path like a back edge of its own
                         init = State()
                         for ai, a in enumerate(args):
                             init.env[ai + 1] = a
                         init.mem = dict(st.mem)
                         init.known = dict(st.known)
+                        init.shared = st.shared
                         try:
                             results = sub.run_from(init)
                         except PathBudget:
                             results = None
-                        if results is not None and all(ev and ev[-1][0] in ("ret", "diverge", "unreachable") for ev, _ in results):
+                        if results is not None and all(ev and ev[-1][0] in ("ret", "diverge", "unreachable", "loop") for ev, _ in results):
                             for ev, fin in results:
                                 s2 = st.fork()
-                                tag = lambda e: (e[0], ("in", bb, e[1])) + tuple(e[2:]) if len(e) > 1 else e
-                                inner = [tag(e) for e in ev[:-1]]
-                                s2.events.extend(inner)
+                                s2.events.extend(ev[:-1])
                                 s2.mem = dict(fin.mem)
                                 s2.known = dict(fin.known)
+                                s2.shared = fin.shared
                                 last = ev[-1]
                                 if last[0] != "ret":
-                                    s2.events.append((last[0], ("in", bb, last[1])))
+                                    s2.events.append(last)
                                     self._emit(s2)
                                     continue
                                 dl, dproj = t["dest"]
@@ -609,17 +622,19 @@ class Walker:
                             return
                 # a callee that receives `&mut X` may change X: forget what we know below X
                 for a in args:
+                    if a[0] == "ref" and a[1] in st.shared:
+                        continue  # `&T`: the callee can only read
                     if a[0] == "ref":
                         kill = [m for m in st.mem if m == a[1] or is_prefix(a[1], m)]
                         for m in kill:
                             del st.mem[m]
                         forget(st, a[1])
                 if k == "tailcall" or t.get("t") is None:
-                    st.events.append(("diverge", bb))
+                    st.events.append(("diverge", self.T(bb)))
                     self._emit(st)
                     return
                 dl, dproj = t["dest"]
-                res = ("call", bb, path, args)
+                res = ("call", self.T(bb), path, args)
                 if not dproj:
                     st.env[dl] = res
                 else:
@@ -648,7 +663,7 @@ class Walker:
                     if tgt is None:
                         tgt = t["else"]
                     if cv.__class__ is not bool and self.decide is not None and switch_const(term) is None:
-                        st.events.append(("switch", bb, term, cv, listed))
+                        st.events.append(("switch", self.T(bb), term, cv, listed))
                     bb = tgt
                     continue
                 # a scrutinee already decided on this path is not forked again (repeated `matches!`, nested matches)
@@ -658,7 +673,7 @@ class Walker:
                     for v, tb in vals:
                         if v == kn[1]:
                             tgt = tb
-                    st.events.append(("switch", bb, term, kn[1] if tgt is not None else "else", listed))
+                    st.events.append(("switch", self.T(bb), term, kn[1] if tgt is not None else "else", listed))
                     bb = tgt if tgt is not None else t["else"]
                     continue
                 excluded = kn[1] if kn is not None else frozenset()
@@ -667,7 +682,7 @@ class Walker:
                     if v in excluded:
                         continue
                     s2 = st.fork()
-                    s2.events.append(("switch", bb, term, v, listed))
+                    s2.events.append(("switch", self.T(bb), term, v, listed))
                     s2.known[term] = ("eq", v)
                     self._walk(tb, s2)
                 nlisted = set(listed) | set(excluded)
@@ -676,12 +691,19 @@ class Walker:
                 if term[0] == "c" or (isinstance(t.get("ty"), str) and t["ty"] == "bool" and len(nlisted) >= 2):
                     return
                 s2 = st
-                s2.events.append(("switch", bb, term, "else", listed))
+                s2.events.append(("switch", self.T(bb), term, "else", listed))
                 s2.known[term] = ("ne", frozenset(nlisted))
                 bb = t["else"]
                 # infeasible otherwise-arms end in `unreachable` and are dropped by callers.
                 continue
             raise RuntimeError("unknown terminator " + k)
+
+
+def callee_has_loops(body):
+    try:
+        return bool(Walker(body, max_paths=1).loop_assigned)
+    except Exception:
+        return True
 
 
 def fold_try_branch(path, args):
@@ -790,6 +812,13 @@ def fold_bin(op, a, b):
 
 # ---------------------------------------------------------------- pretty printing
 
+def bbid(x):
+    """printable block id: inlined bodies carry ("in", prefix, bb)"""
+    while isinstance(x, tuple):
+        x = x[-1]
+    return x if isinstance(x, int) else 0
+
+
 def show(t, depth=0):
     if not isinstance(t, tuple):
         return str(t)
@@ -831,10 +860,10 @@ def show(t, depth=0):
         return "&" + show(t[1], depth + 1)
     if k == "call":
         if isinstance(t[2], str) and t[2].endswith("Try>::branch") and len(t[3]) == 1:
-            return "%s(%s)@%d" % (short(t[2]), show(t[3][0], depth), t[1])  # `x?` is not a nesting level
+            return "%s(%s)@%d" % (short(t[2]), show(t[3][0], depth), bbid(t[1]))  # `x?` is not a nesting level
         if depth > 4:
-            return "%s(..)@%d" % (short(t[2]), t[1])
-        return "%s(%s)@%d" % (short(t[2]), ", ".join(show(a, depth + 1) for a in t[3]), t[1])
+            return "%s(..)@%d" % (short(t[2]), bbid(t[1]))
+        return "%s(%s)@%d" % (short(t[2]), ", ".join(show(a, depth + 1) for a in t[3]), bbid(t[1]))
     if k == "discr":
         return "discr(%s)" % show(t[1], depth + 1)
     if k == "bin":
